@@ -11,8 +11,15 @@ use std::collections::HashMap;
 use std::fs;
 use std::io::{ErrorKind, Read, Write};
 use std::path::{Path, PathBuf};
+#[cfg(not(ldk_verif))]
 use std::sync::atomic::{AtomicU64, AtomicUsize, Ordering};
+#[cfg(not(ldk_verif))]
 use std::sync::{Arc, Mutex, RwLock};
+
+#[cfg(ldk_verif)]
+use shuttle::sync::atomic::{AtomicU64, AtomicUsize, Ordering};
+#[cfg(ldk_verif)]
+use shuttle::sync::{Arc, Mutex, RwLock};
 
 #[cfg(target_os = "windows")]
 use std::ffi::OsStr;
@@ -110,6 +117,12 @@ impl FilesystemStoreState {
 		outer_lock.len()
 	}
 
+	#[cfg(ldk_verif)]
+	/// Returns the number of entries of the per-path lock map (as `state_size` does).
+	pub(crate) fn verif_state_size(&self) -> usize {
+		self.inner.locks.lock().unwrap().len()
+	}
+
 	pub(crate) fn get_checked_dest_file_path(
 		&self, primary_namespace: &str, secondary_namespace: &str, key: Option<&str>,
 		operation: &str, use_empty_ns_dir: bool,
@@ -186,7 +199,11 @@ impl FilesystemStoreInner {
 		let mut buf = Vec::new();
 
 		self.execute_locked_read(dest_file_path.clone(), || {
+			#[cfg(ldk_verif)]
+			crate::verif::fs_point("read.open")?;
 			let mut f = fs::File::open(dest_file_path)?;
+			#[cfg(ldk_verif)]
+			crate::verif::fs_point("read.read_to_end")?;
 			f.read_to_end(&mut buf)?;
 			Ok(())
 		})?;
@@ -215,6 +232,9 @@ impl FilesystemStoreInner {
 		};
 
 		self.clean_locks(&inner_lock_ref, dest_file_path);
+		// Between the count in `clean_locks` and the drop of `inner_lock_ref` below.
+		#[cfg(ldk_verif)]
+		crate::verif::fs_yield();
 
 		res
 	}
@@ -228,6 +248,8 @@ impl FilesystemStoreInner {
 			callback()
 		};
 		self.clean_locks(&inner_lock_ref, dest_file_path);
+		#[cfg(ldk_verif)]
+		crate::verif::fs_yield();
 		res
 	}
 
@@ -253,6 +275,8 @@ impl FilesystemStoreInner {
 		version: u64, preserve_mtime: bool,
 	) -> lightning::io::Result<()> {
 		let mtime = if preserve_mtime {
+			#[cfg(ldk_verif)]
+			crate::verif::fs_point("write.metadata")?;
 			match fs::metadata(&dest_file_path) {
 				Err(e) if e.kind() == ErrorKind::NotFound => None,
 				Err(e) => return Err(e.into()),
@@ -266,6 +290,8 @@ impl FilesystemStoreInner {
 				format!("Could not retrieve parent directory of {}.", dest_file_path.display());
 			std::io::Error::new(std::io::ErrorKind::InvalidInput, msg)
 		})?;
+		#[cfg(ldk_verif)]
+		crate::verif::fs_point("write.create_dir_all")?;
 		fs::create_dir_all(&parent_directory)?;
 
 		// Do a crazy dance with lots of fsync()s to be overly cautious here...
@@ -277,22 +303,32 @@ impl FilesystemStoreInner {
 		let tmp_file_ext = format!("{}.tmp", self.tmp_file_counter.fetch_add(1, Ordering::AcqRel));
 		tmp_file_path.set_extension(tmp_file_ext);
 
+		#[cfg(ldk_verif)]
+		crate::verif::fs_point("write.create_tmp")?;
 		let tmp_file_res = match fs::File::create(&tmp_file_path) {
 			Ok(mut tmp_file) => (|| -> lightning::io::Result<()> {
+				#[cfg(ldk_verif)]
+				crate::verif::fs_point("write.write_all")?;
 				tmp_file.write_all(&buf)?;
 
 				// If we need to preserve the original mtime (for updates), set it before fsync.
 				if let Some(mtime) = mtime {
 					let times = fs::FileTimes::new().set_modified(mtime);
+					#[cfg(ldk_verif)]
+					crate::verif::fs_point("write.set_times")?;
 					tmp_file.set_times(times)?;
 				}
 
+				#[cfg(ldk_verif)]
+				crate::verif::fs_point("write.sync_tmp")?;
 				tmp_file.sync_all()?;
 				Ok(())
 			})(),
 			Err(e) => return Err(e.into()),
 		};
 		if let Err(e) = tmp_file_res {
+			#[cfg(ldk_verif)]
+			crate::verif::fs_yield();
 			let _ = fs::remove_file(&tmp_file_path);
 			return Err(e);
 		}
@@ -302,9 +338,15 @@ impl FilesystemStoreInner {
 			self.execute_locked_write(inner_lock_ref, dest_file_path.clone(), version, || {
 				#[cfg(not(target_os = "windows"))]
 				{
+					#[cfg(ldk_verif)]
+					crate::verif::fs_point("write.rename")?;
 					fs::rename(&tmp_file_path, &dest_file_path)?;
 					tmp_file_needs_cleanup = false;
+					#[cfg(ldk_verif)]
+					crate::verif::fs_point("write.open_dir")?;
 					let dir_file = fs::OpenOptions::new().read(true).open(&parent_directory)?;
+					#[cfg(ldk_verif)]
+					crate::verif::fs_point("write.sync_dir")?;
 					dir_file.sync_all()?;
 					Ok(())
 				}
@@ -349,6 +391,8 @@ impl FilesystemStoreInner {
 				}
 			});
 		if tmp_file_needs_cleanup {
+			#[cfg(ldk_verif)]
+			crate::verif::fs_yield();
 			let _ = fs::remove_file(&tmp_file_path);
 		}
 		write_res
@@ -358,18 +402,24 @@ impl FilesystemStoreInner {
 		&self, inner_lock_ref: Arc<RwLock<u64>>, dest_file_path: PathBuf, lazy: bool, version: u64,
 	) -> lightning::io::Result<()> {
 		self.execute_locked_write(inner_lock_ref, dest_file_path.clone(), version, || {
+			#[cfg(ldk_verif)]
+			crate::verif::fs_point("remove.is_file")?;
 			if !dest_file_path.is_file() {
 				return Ok(());
 			}
 
 			if lazy {
 				// If we're lazy we just call remove and be done with it.
+				#[cfg(ldk_verif)]
+				crate::verif::fs_point("remove.remove_file")?;
 				fs::remove_file(&dest_file_path)?;
 			} else {
 				// If we're not lazy we try our best to persist the updated metadata to ensure
 				// atomicity of this call.
 				#[cfg(not(target_os = "windows"))]
 				{
+					#[cfg(ldk_verif)]
+					crate::verif::fs_point("remove.remove_file")?;
 					fs::remove_file(&dest_file_path)?;
 
 					let parent_directory = dest_file_path.parent().ok_or_else(|| {
@@ -379,6 +429,8 @@ impl FilesystemStoreInner {
 						);
 						std::io::Error::new(std::io::ErrorKind::InvalidInput, msg)
 					})?;
+					#[cfg(ldk_verif)]
+					crate::verif::fs_point("remove.open_dir")?;
 					let dir_file = fs::OpenOptions::new().read(true).open(parent_directory)?;
 					// The above call to `fs::remove_file` corresponds to POSIX `unlink`, whose changes
 					// to the inode might get cached (and hence possibly lost on crash), depending on
@@ -386,6 +438,8 @@ impl FilesystemStoreInner {
 					//
 					// In order to assert we permanently removed the file in question we therefore
 					// call `fsync` on the parent directory on platforms that support it.
+					#[cfg(ldk_verif)]
+					crate::verif::fs_point("remove.sync_dir")?;
 					dir_file.sync_all()?;
 				}
 
@@ -437,6 +491,8 @@ impl FilesystemStoreInner {
 	}
 
 	fn list(&self, prefixed_dest: PathBuf, is_v2: bool) -> lightning::io::Result<Vec<String>> {
+		#[cfg(ldk_verif)]
+		crate::verif::fs_point("list.exists")?;
 		if !Path::new(&prefixed_dest).exists() {
 			return Ok(Vec::new());
 		}
@@ -446,7 +502,11 @@ impl FilesystemStoreInner {
 
 		'retry_list: loop {
 			keys = Vec::new();
+			#[cfg(ldk_verif)]
+			crate::verif::fs_point("list.read_dir")?;
 			'skip_entry: for entry in fs::read_dir(&prefixed_dest)? {
+				#[cfg(ldk_verif)]
+				crate::verif::fs_point("list.entry")?;
 				let entry = entry?;
 				let p = entry.path();
 
@@ -765,6 +825,78 @@ impl FilesystemStoreState {
 		&self, use_empty_ns_dir: bool,
 	) -> Result<Vec<(String, String, String)>, lightning::io::Error> {
 		self.inner.list_all_keys(use_empty_ns_dir)
+	}
+}
+
+/// The second half of a write or remove issued through `verif_prepare_write` /
+/// `verif_prepare_remove`: it owns what the closure handed to `spawn_blocking` by `write_async` /
+/// `remove_async` owns (the per-path lock reference and the version taken at issue time).
+#[cfg(ldk_verif)]
+pub struct VerifPrepared {
+	this: Arc<FilesystemStoreInner>,
+	inner_lock_ref: Arc<RwLock<u64>>,
+	version: u64,
+	path: PathBuf,
+	// `Some((buf, preserve_mtime))` for a write, `None` for a remove.
+	write: Option<(Vec<u8>, bool)>,
+	lazy: bool,
+}
+
+#[cfg(ldk_verif)]
+impl VerifPrepared {
+	/// The version this operation took when it was issued.
+	pub fn version(&self) -> u64 {
+		self.version
+	}
+
+	/// Runs what `spawn_blocking` runs in `write_async` / `remove_async`.
+	pub fn execute(self) -> Result<(), lightning::io::Error> {
+		let VerifPrepared { this, inner_lock_ref, version, path, write, lazy } = self;
+		match write {
+			Some((buf, preserve_mtime)) => {
+				this.write_version(inner_lock_ref, path, buf, version, preserve_mtime)
+			},
+			None => this.remove_version(inner_lock_ref, path, lazy, version),
+		}
+	}
+}
+
+#[cfg(ldk_verif)]
+impl FilesystemStoreState {
+	/// The synchronous half of `write_async`: checks the names and takes the version and the lock
+	/// reference at call time.
+	pub(crate) fn verif_prepare_write(
+		&self, primary_namespace: &str, secondary_namespace: &str, key: &str, buf: Vec<u8>,
+		use_empty_ns_dir: bool,
+	) -> Result<VerifPrepared, lightning::io::Error> {
+		let this = Arc::clone(&self.inner);
+		let path = this.get_checked_dest_file_path(
+			primary_namespace,
+			secondary_namespace,
+			Some(key),
+			"write",
+			use_empty_ns_dir,
+		)?;
+		let (inner_lock_ref, version) = self.get_new_version_and_lock_ref(path.clone());
+		let write = Some((buf, use_empty_ns_dir));
+		Ok(VerifPrepared { this, inner_lock_ref, version, path, write, lazy: false })
+	}
+
+	/// The synchronous half of `remove_async`.
+	pub(crate) fn verif_prepare_remove(
+		&self, primary_namespace: &str, secondary_namespace: &str, key: &str, lazy: bool,
+		use_empty_ns_dir: bool,
+	) -> Result<VerifPrepared, lightning::io::Error> {
+		let this = Arc::clone(&self.inner);
+		let path = this.get_checked_dest_file_path(
+			primary_namespace,
+			secondary_namespace,
+			Some(key),
+			"remove",
+			use_empty_ns_dir,
+		)?;
+		let (inner_lock_ref, version) = self.get_new_version_and_lock_ref(path.clone());
+		Ok(VerifPrepared { this, inner_lock_ref, version, path, write: None, lazy })
 	}
 }
 
